@@ -22,7 +22,7 @@ GROUPS = [
     errfmt("mps_err", "read_mps_mpq.c", ["mps_err", "ILLmps_error", "ILLmps_warn"]),
     errfmt("ILLmsg", "rawlp_mpq.c", ["ILLmsg", "ILLdata_error", "ILLdata_warn"]),
     lit("single", ["NODIV", "ID=3", "FD=1", "MAXE=1"], "single numbers [sign] up to 3 integer digits ['.' up to 1 fraction digit] [(e|E)[sign] digit <= 1]", [], 12),
-    lit("fraction", ["DIV", "ID=1", "FD=1", "MAXE=1"], "fractions number '/' number, number = [sign] up to 1 integer digit ['.' up to 1 fraction digit] [(e|E)[sign] digit <= 1]",
+    lit("fraction", ["DIV", "ID=1", "FD=0", "MAXE=1"], "fractions number '/' number, number = [sign] 1 integer digit [(e|E)[sign] digit <= 1]",
         ["reach_fraction_of_decimals", "reach_zero_divisor"], 16),
     Group("lpnum/anybytes", "lpnum_readstr.c", tus=["eg_lpnum.c", "read_lp_mpq.c"], model=MODEL, defines=["FN_anybytes"] + EXACT, dfcc=False,
           unwind=8, kind="bounded", bound="every string of at most 5 bytes over {0,7,.,+,-,/,space,x}; loops completely unwound", timeout=900, namebuf=512,
